@@ -102,7 +102,7 @@ _build_lock = threading.Lock()
 
 def build(extra_mains=(), skip_pkgs="internal/zzverif,internal/pointer", tag="std"):
     """Returns the directory holding the binaries built from the instrumented copy of /repo's working tree."""
-    key = tree_hash() + "-" + tag
+    key = tree_hash() + "-" + tag + "-r2"  # r<N>: revision of the build recipe below
     d = os.path.join(CACHE, key)
     marker = os.path.join(d, "OK")
     if os.path.exists(marker):
@@ -145,6 +145,11 @@ def build(extra_mains=(), skip_pkgs="internal/zzverif,internal/pointer", tag="st
                         "./internal/zzverif/cmd/" + m], cwd=scratch, check=False)
                 if p.returncode != 0:
                     raise Inconclusive("build of instrumented tree failed:\n" + p.stdout[-6000:])
+                # the same code without the race detector, for checks whose oracles compare results only
+                p = sh(["go", "build", "-tags", "verif", "-trimpath", "-o", os.path.join(d, m + "-norace"),
+                        "./internal/zzverif/cmd/" + m], cwd=scratch, check=False)
+                if p.returncode != 0:
+                    raise Inconclusive("build of instrumented tree failed:\n" + p.stdout[-6000:])
             open(marker, "w").write("built in %.1fs\n" % (time.time() - t0))
             log("[build] instrumented tree built in %.1fs -> %s" % (time.time() - t0, d))
         finally:
@@ -184,7 +189,7 @@ class Worker:
         r, w = os.pipe()
         env = dict(GOENV)
         self.racelog = os.path.join(self.workdir, "race-%d-%d" % (self.idx, self.spawns))
-        env["GORACE"] = "log_path=%s halt_on_error=0 history_size=3" % self.racelog
+        env["GORACE"] = "log_path=%s halt_on_error=0 history_size=3 atexit_sleep_ms=0" % self.racelog
         self.errf = open(os.path.join(self.workdir, "stderr-%d" % self.idx), "ab")
         self.proc = subprocess.Popen([self.binary, "worker", "-out", "/dev/fd/%d" % w, "-work", self.workdir],
                                      stdin=subprocess.PIPE, stdout=subprocess.DEVNULL, stderr=self.errf,
@@ -279,8 +284,11 @@ class Worker:
         return {"id": job["id"], "died": True, "exit": rc, "stderr": tail, "race": race}
 
 
-def run_jobs(binary, jobs, timeout=180, nproc=None, progress=None):
-    """Runs jobs on a pool of workers; returns results in job order."""
+def run_jobs(binary, jobs, timeout=180, nproc=None, progress=None, fresh=True):
+    """Runs jobs on a pool of workers; returns results in job order. With fresh=True every job gets its own
+    process, so that a run is a function of its job alone (the analyser keeps process-global counters whose
+    values leak into node identifiers and hence into canonical map orders) and race reports, which the
+    detector prints once per process, are attributed to the run that produced them."""
     nproc = nproc or NPROC
     workdir = tempfile.mkdtemp(prefix="verif-run-", dir=scratch_root())
     q = queue.Queue()
@@ -299,6 +307,8 @@ def run_jobs(binary, jobs, timeout=180, nproc=None, progress=None):
                 except queue.Empty:
                     return
                 results[i] = w.run(j, timeout)
+                if fresh:
+                    w.stop()
                 with lock:
                     done[0] += 1
                     if progress and done[0] % progress == 0:
